@@ -302,6 +302,11 @@ func runWindow(fs *flag.FlagSet, args []string) {
 		if sub != "rounds" && sub != "frozen" && sub != "parked" {
 			sub = []string{"rounds", "rounds", "rounds", "frozen", "parked", "parked"}[rng.Intn(6)]
 		}
+		if *adders {
+			// a thread stalled for ever (or for rounds) INSIDE a striped adder can hold its cellsBusy spin lock: an updater whose probe
+			// keeps hitting an empty slot then waits for it (the adders are not claimed to be lock-free; C07 is about the queue)
+			sub = "rounds"
+		}
 		interval := int64(1 + rng.Intn(6))
 		window := interval * int64(1+rng.Intn(4))
 		switch rng.Intn(6) {
